@@ -37,8 +37,9 @@ contract(CMD + "CapabilitiesResponse._parse_capabilities#wf",
          calls_inline=[CMD + "CapabilitiesResponse.__init__", CMD + "CapabilitiesResponse._parse_capabilities"],
          modifies=["self._capabilities", "self._additional_capabilities"],
          ensures={"additional_flag_is_second_to_last_byte": "self._additional_capabilities == (payload[len(payload) - 2] != 0)"},
+         local_roles={"caps": "assigned_from:payload[2:]"},
          loops={"0": {
-             "match": "range(0, count)",
+             "match": "range(0, ",
              "ghost_init": {"off": "2"},
              "modifies": ["self._capabilities"],
              "havoc": {"self._capabilities": "symdict:CAP_KEYS", "off": "nat"},
